@@ -486,9 +486,9 @@ def emph_strings(seed, tier):
 class C11(Check):
     rule = "all strings up to length 5 (quick) / 7 (thorough) over {*, _, a, space, '.', e-acute}, plus random strings of 6-45 symbols adding a non-ASCII punctuation mark and a no-break space; non-trivial = contains a delimiter run"
     obligations = [("main", "TieInline", "tie_inline"), ("emph", "EmphProof", "process_emphasis_opt_sound"), ("main", "PEProof", "processEmphasis_opt_sound"),
-                   ("main", "EmphSlice", "C11_slice"), ("main", "EmphSlice", "C11_parseInlines"), ("main", "EmphSlice", "C11_emphasis_slice"), ("main", "EmphSlice", "C11_opt"),
+                   ("main", "EmphSlice2", "C11_slice2"), ("main", "EmphSlice2", "C11_emphasis_slice2"), ("main", "EmphSlice2", "spec2_extends"), ("main", "EmphFlags2", "emphasisFlags_spec2"), ("main", "EmphSlice", "C11_slice"), ("main", "EmphSlice", "C11_parseInlines"), ("main", "EmphSlice", "C11_emphasis_slice"), ("main", "EmphSlice", "C11_opt"),
                    ("main", "EmphSlice", "C11_structure"), ("main", "EmphFlags", "emphasisFlags_spec")]
-    assumptions = ["proved: the openers_bottom search bounds never change the result of the procedure (abstract delimiter lists of any length, and on the transcription of processEmphasis with its tree surgery); end to end on a vertical slice (EmphSlice.C11_slice): for every line of any length over letters, single spaces, '*', '_' and the bytes . , ; : ( ) and both quote characters that starts with a letter, parseInlines / parseFull of the model produce exactly the forest that the CommonMark 0.30 delimiter-run procedure denotes (flanking from the spec's definitions, EmphFlags.emphasisFlags_spec; process-emphasis without openers_bottom; matches replayed on the token list), the spec run terminates within its fuel, and the run with openers_bottom gives the same events; outside that alphabet (links, code spans, entities, escapes, Unicode punctuation/whitespace next to runs) flanking flags and the tokeniser are tied by the correspondence; the oracle is an independent Go transcription of the spec procedure without the bound"]
+    assumptions = ["proved: the openers_bottom search bounds never change the result of the procedure (abstract delimiter lists of any length, and on the transcription of processEmphasis with its tree surgery); end to end on a vertical slice (EmphSlice.C11_slice): for every line of any length over letters, single spaces, '*', '_' and the bytes . , ; : ( ) and both quote characters that starts with a letter, parseInlines / parseFull of the model produce exactly the forest that the CommonMark 0.30 delimiter-run procedure denotes (flanking from the spec's definitions, EmphFlags.emphasisFlags_spec; process-emphasis without openers_bottom; matches replayed on the token list), the spec run terminates within its fuel, and the run with openers_bottom gives the same events; widened (EmphSlice2.C11_slice2): the same for lines of characters over letters, digits, single spaces, '*', '_', 22 further ASCII punctuation bytes (all but the ones that start other inline constructs), the 16 non-ASCII Zs white-space code points, 46 non-ASCII punctuation code points and non-ASCII letters (U+00C0-U+024F and a dozen Greek/Cyrillic/CJK letters), with flanking decided on decoded code points from the spec's definitions (EmphFlags2.emphasisFlags_spec2; EmphSpec2 uses nothing of the model's decoder or tables); outside that alphabet (links, code spans, entities, escapes, other code points) flanking flags and the tokeniser are tied by the correspondence; the oracle is an independent Go transcription of the spec procedure without the bound"]
 
     def jobs(self, seed, tier):
         cases = [(s, "0") for s in emph_strings(seed, tier)]
